@@ -258,11 +258,33 @@ func (index *indexText) processAnalysedDoc(ad analysedDocument) error {
 }
 
 func (index *indexText) parallelAnalyse(ctx context.Context, in <-chan Document) (<-chan analysedDocument, <-chan error) {
-	numWorkers := runtime.NumCPU() - 1
+	numWorkers := max(runtime.NumCPU()-1, 1)
+	/* Changes to the same document must reach the single writer in the order
+	 * they were made (a batch may name a point more than once), so each
+	 * document id is always analysed by the same worker: a worker and the
+	 * merge below both preserve the order of what they are given. */
+	ins := make([]chan Document, numWorkers)
+	for i := range ins {
+		ins[i] = make(chan Document)
+	}
+	go func() {
+		defer func() {
+			for _, c := range ins {
+				close(c)
+			}
+		}()
+		for doc := range in {
+			select {
+			case ins[doc.Id%uint64(numWorkers)] <- doc:
+			case <-ctx.Done():
+				return
+			}
+		}
+	}()
 	outs := make([]<-chan analysedDocument, numWorkers)
 	errCs := make([]<-chan error, numWorkers)
 	for i := 0; i < numWorkers; i++ {
-		out, errC := utils.TransformWithContext(ctx, in, func(doc Document) (ad analysedDocument, skip bool, err error) {
+		out, errC := utils.TransformWithContext(ctx, ins[i], func(doc Document) (ad analysedDocument, skip bool, err error) {
 			// Perform analysis
 			tokens, err := index.analyser.Analyse(doc.Text)
 			if err != nil {
